@@ -1471,6 +1471,10 @@ func (m *RedisMessage) AsGeosearch() ([]GeoLocation, error) {
 		} else {
 			info := v.values()
 			var i int
+			if len(info) == 0 {
+				typ := v.typ
+				return nil, fmt.Errorf("%w: redis message type %s is not a GEOSEARCH location", errParse, typeNames[typ])
+			}
 
 			//name
 			loc.Name = info[i].string()
